@@ -455,6 +455,16 @@ func (c *candidateBase) abortIO() error {
 	return c.closeErr
 }
 
+// ioAborted reports whether abortIO / close already interrupted the socket I/O of this candidate.
+func (c *candidateBase) ioAborted() bool {
+	select {
+	case <-c.closeCh:
+		return true
+	default:
+		return false
+	}
+}
+
 func (c *candidateBase) writeTo(raw []byte, dst Candidate) (int, error) {
 	var n int
 	var err error
@@ -465,7 +475,7 @@ func (c *candidateBase) writeTo(raw []byte, dst Candidate) (int, error) {
 	}
 	if err != nil {
 		// If the connection is closed, we should return the error
-		if errors.Is(err, io.ErrClosedPipe) {
+		if errors.Is(err, io.ErrClosedPipe) || c.ioAborted() {
 			return n, err
 		}
 		c.agent().log.Infof("Failed to send packet: %v", err)
